@@ -43,7 +43,11 @@ class CallGraph:
         sites, refs, stores = self._sites_by_tail, self._refs_by_attr, self._stores_by_attr
         for fn in self._funcs_by_module.get(m.name, []):
             callfuncs = set()
-            nodes = list(func_own_nodes(fn))
+            # lambda bodies are included: a call made from a lambda is a call
+            # site of the enclosing function for every who-may-call sweep
+            nodes = list(func_own_nodes(fn, into_lambda=True))
+            for d in getattr(fn.node, "decorator_list", []) or []:
+                nodes.extend(own_nodes(d, into_lambda=True))
             for n in nodes:
                 if isinstance(n, ast.Call):
                     cs = CallSite(fn, n)
@@ -58,21 +62,33 @@ class CallGraph:
                         stores.setdefault(n.attr, []).append((fn, n))
                 elif isinstance(n, ast.Name) and isinstance(n.ctx, ast.Load) and id(n) not in callfuncs:
                     refs.setdefault(n.id, []).append((fn, n))
-        # module-level code (class bodies, module statements) as a pseudo function
+        # module-level and class-level statements (not function bodies) as a pseudo function
         pf = _module_pseudo(m)
-        for st in m.tree.body:
-            for n in own_nodes(st):
+
+        def scan_stmt(st):
+            if isinstance(st, (ast.FunctionDef, ast.AsyncFunctionDef)):
+                return            # scanned above as a function (with its decorators)
+            if isinstance(st, ast.ClassDef):
+                for d in st.decorator_list + st.bases:
+                    for x in own_nodes(d, into_lambda=True):
+                        if isinstance(x, ast.Call):
+                            cs = CallSite(pf, x)
+                            sites.setdefault(cs.tail, []).append(cs)
+                for sub in st.body:
+                    scan_stmt(sub)
+                return
+            for n in own_nodes(st, into_lambda=True):
+                if isinstance(n, (ast.FunctionDef, ast.AsyncFunctionDef, ast.ClassDef)) and n is not st:
+                    if isinstance(n, ast.ClassDef):
+                        scan_stmt(n)
+                    continue
                 if isinstance(n, ast.Call):
                     cs = CallSite(pf, n)
                     sites.setdefault(cs.tail, []).append(cs)
-                if isinstance(n, ast.ClassDef):
-                    for sub in n.body:
-                        if isinstance(sub, (ast.FunctionDef, ast.AsyncFunctionDef)):
-                            continue
-                        for x in own_nodes(sub):
-                            if isinstance(x, ast.Call):
-                                cs = CallSite(pf, x)
-                                sites.setdefault(cs.tail, []).append(cs)
+                elif isinstance(n, ast.Attribute) and isinstance(n.ctx, ast.Load):
+                    refs.setdefault(n.attr, []).append((pf, n))
+        for st in m.tree.body:
+            scan_stmt(st)
 
     def _scan(self, name: Optional[str] = None):
         if self._sites_by_tail is None:
